@@ -59,6 +59,9 @@ C16_Failing(h) ==
      \* between): still the JSON round trip of the value as it is NOW
      \cup (IF \E i \in 1..Len(h) : h[i].ev = "bindalias" /\ (h[i].panicked \/ h[i].iserr # h[i].referr \/ (~h[i].referr /\ ~h[i].desteq))
            THEN {"jsonRoundTripOfCurrentValue"} ELSE {})
+     \* a Bind that overlaps Set / Delete calls of the same key by another goroutine binds the value or reports the missing key -
+     \* it never reports success having bound nothing (the harness counts the calls that did)
+     \cup (IF \E i \in 1..Len(h) : h[i].ev = "bindrace" /\ h[i].bad > 0 THEN {"errorReportedUnderConcurrency"} ELSE {})
 C16_BadCalls(h) == {<<h[i].carrier, h[i].dest, h[i].ref, h[i].val>> : i \in {j \in 1..Len(h) : h[j].ev = "bind" /\ ~CallOK(h[j])}}
 
 VARIABLE cell
